@@ -1722,6 +1722,12 @@ func cmdC06(seed int64, tier, outDir string) {
 					// pipeline_par_early_stop_eq_seq: the error of a read-ahead element behind the decisive one surfaced
 					sum.Count("lazy_late_error", "surfaced (evaluation fails, the sequential result is a value)")
 					sum.Sample(map[string]any{"lazy_late_error_surfaced": text, "gomaxprocs": run.procs, "sequential_result": c6ObsString(ref, refOK), "error": res.Err})
+					// a violation of the property (strictly sequential evaluation returns the value), with a signature of its own:
+					// recorded in known_findings.json (defect of the dependency's collector, iterator.initParallel)
+					lateSig := "parallel map/accept | short-circuit consumer | error of a read-ahead element behind the decisive one surfaces"
+					hl := map[string]any{"expression": text, "n": c.N, "gomaxprocs": run.procs, "repro": c, "signature": lateSig, "error": res.Err, "switched_stage_ids": sortedIntKeys(switched)}
+					sum.GoViolations = append(sum.GoViolations, GoViolation{CaseID: caseID, What: "lazy family: evaluation fails under parallel execution with the error of an element BEHIND the decisive one; strictly sequential evaluation returns a value",
+						Sig: lateSig, Human: hl, Expected: c6ObsString(ref, refOK), Observed: "error: " + res.Err})
 					wrong = false
 				} else if hasErr && refOK {
 					sum.Count("lazy_late_error", "invisible")
